@@ -133,18 +133,21 @@ def maxMatching (n : Nat) (edges : List (Nat × Nat)) : Nat :=
 /-- `2^-p`-grid truncation (toward zero for nonnegative `q`) -/
 def truncQ (p : Nat) (q : Rat) : Rat := ((q * ((2 ^ p : Nat) : Rat)).floor : Rat) / ((2 ^ p : Nat) : Rat)
 
-/-- `exp x` for a rational `|x| ≤ 4096`, relative error below `2^-100` (argument halving 13 times,
+/-- `exp x` for a rational `|x| ≤ 131072`, relative error below `2^-100` (argument halving 18 times,
 31 Taylor terms, repeated squaring on a `2^-200` grid).  Driver-side evaluation of the scale factors
-`exp(u_i)`, `exp(v_j)` that dgsisx.c:563-564 forms in floating point; `none` if `|x| > 4096`. -/
+`exp(u_i)`, `exp(v_j)` that dgsisx.c:563-564 forms in floating point; `none` if `|x| > 131072`.
+(The duals of an n x n matrix of doubles are sums of at most 2n logarithms of magnitude below 745,
+so for the orders generated, n ≤ 32, they never leave this range; MC64 returns the warning 2 when
+a scale factor would overflow the floating-point range, and the exact evaluation here goes on.) -/
 def expQ (x : Rat) : Option Rat :=
   let ax := if x < 0 then -x else x
-  if ax > 4096 then none else
-  let y := ax / 8192
+  if ax > 131072 then none else
+  let y := ax / 262144
   let (s, _) := (List.range 31).foldl (fun (st : Rat × Rat) k =>
     let (s, t) := st
     let t' := truncQ 220 (t * y / ((k + 1 : Nat) : Rat))
     (s + t', t')) ((1 : Rat), (1 : Rat))
-  let e := (List.range 13).foldl (fun (e : Rat) _ => truncQ 200 (e * e)) s
+  let e := (List.range 18).foldl (fun (e : Rat) _ => truncQ 200 (e * e)) s
   some (if x < 0 then 1 / e else e)
 
 end Slu.Ldperm
